@@ -255,6 +255,22 @@ let run_case op t =
        let lt = dd_lt_m p.a p.b x y and gt = dd_lt_m p.b p.a y x and eq = dd_eq_m p.a p.b x y in
        (legs ([ fb (dd_plus_m p.a p.b x y); fb (dd_minus_m p.a p.b x y); fb (dd_div_m p.a p.b x y) ]
               @ List.map tokb_of [ eq; nb eq; lt; nb gt; gt; nb lt ]), "na")
+     | "d_mixed" ->
+       (* duration<int64, P1>{c} with duration<double, P2>{y} *)
+       let c = next_z t in
+       let y = dec64 (next_z t) in
+       let fb = function Val r -> str_of_z (enc64 r) | Ub _ -> "ub" | IllFormed -> "illformed" | Fuel -> "fuel" in
+       let nb = function Val b -> Val (not b) | o -> o in
+       let lt = id_lt_m p.a p.b c y and gt = di_lt_m p.b p.a y c and eq = id_eq_m p.a p.b c y in
+       (legs ([ fb (id_plus_m p.a p.b c y); fb (id_minus_m p.a p.b c y); fb (di_minus_m p.b p.a y c) ]
+              @ List.map tokb_of [ eq; nb eq; lt; nb gt; gt; nb lt; gt ]), "na")
+     | "d_scalar" ->
+       let c = next_z t in
+       let y = dec64 (next_z t) in
+       let fb = function Val r -> str_of_z (enc64 r) | Ub _ -> "ub" | IllFormed -> "illformed" | Fuel -> "fuel" in
+       let e r = str_of_z (enc64 r) in
+       (legs [ fb (is_mul_m p.a c y); fb (is_mul_m p.a c y); fb (is_div_m p.a c y);
+               e (ds_mul_m y c); e (ds_mul_m y c); e (ds_div_m y c) ], "na")
      | _ -> raise Not_found)
 
 let () = main run_case
